@@ -251,7 +251,7 @@ static Exec *E = nullptr;
 
 // ------------------------------------------------------------------ callbacks (S5)
 
-static void do_cb_action(); // defined after the schema builder
+static void do_cb_action(cfg_t *cfg); // defined after the schema builder
 
 static bool cb_tick(const std::string &entry, int *verdict, cfg_t *cfg = nullptr)
 {
@@ -268,7 +268,7 @@ static bool cb_tick(const std::string &entry, int *verdict, cfg_t *cfg = nullptr
 		E->res.faults_fired_cb++;
 	E->cur->cbs.push_back(entry + "->" + std::to_string(*verdict));
 	if (!E->cb_act.empty() && E->cur->cb_count == E->cb_act_at)
-		do_cb_action();
+		do_cb_action(cfg);
 	if (fail && E->cb_report && cfg)
 		cfg_error(cfg, "refused by callback"); // a refusing callback reports the error itself, as the API documentation asks
 	if (E->cb_errno != -1000)
@@ -741,11 +741,19 @@ static cfg_t *do_init(int client, int schema, int flags, const json &op)
 
 // Re-entry from a callback (a party of its own: the application code inside the callback): while a parse of one
 // context is under way the callback releases ANOTHER context, or creates, fills and releases a temporary one.
-static void do_cb_action()
+static void do_cb_action(cfg_t *cbcfg)
 {
 	OpResult &r = *E->cur;
 	if (r.op != "parse")
 		return;
+	if (E->cb_act == "set_self") {
+		// the callback sets another option of the context being parsed (an option the text assigns later on)
+		if (!cbcfg)
+			return;
+		int rc = cfg_setint(cbcfg, "a", 77);
+		r.cbs.push_back("act set_self ret=" + std::to_string(rc));
+		return;
+	}
 	int key = r.client * 1000 + E->cb_act_ctx;
 	if (E->cb_act == "free_other") {
 		auto it = E->ctxs.find(key);
